@@ -1,6 +1,245 @@
-/- C16 — model not written yet (stub so that the driver target exists). -/
-namespace Nitime.C16
+/-
+C16 — operations never corrupt their operands, copies or inputs: object-store model (core Lean).
 
-def handle (_args : List String) : String := "bad-op"
+The store holds the caller-owned int64 arrays (`List Int` each; id = position).  Every model
+function returns the store afterwards together with its result, so that "the operand is
+bit-for-bit unchanged" is a statement about the returned store.
+
+Follows the source:
+* `TimeArray._convert_if_needed` + operators  → `convertOperand`, `binop` (values: the C01 model)
+* `TimeArray.__setitem__`                     → `setItem`
+* `UniformTime._convert_and_check_uniformity` → `checkUniform` (values and check: the C17 model)
+* `__array_finalize__` for copies / views     → C17 (`inheritAttrs`; theorems in Props/C17)
+* `TimeSeries.copy`, `__add__ … __idiv__`     → `seriesCopy`, `seriesArith`, `seriesInplace`
+* `periodogram_csd`: reshape in place – compute – restore → `csd` (three steps, failure points)
+
+`Cfg` switches select the unrepaired behaviour site by site (`current` = the source as it stands:
+`_convert_if_needed` and `_convert_and_check_uniformity` are repaired, `__setitem__` and
+`periodogram_csd` are not) or the intended one (`fixed`); `beforeFirstRepair` = the snapshot.
+Not modelled: float64 / int32 operands (the harness snapshots them), dict-valued metadata contents.
+-/
+import Nitime.Model.C01
+import Nitime.Model.C17
+
+namespace Nitime.C16
+open Nitime
+
+structure Cfg where
+  /-- `_convert_if_needed` scales an ndarray operand in place (before commit 38397b6) -/
+  binopInPlace : Bool
+  /-- `__setitem__` does `val *= factor` -/
+  setitemInPlace : Bool
+  /-- `_convert_and_check_uniformity` does `val *= factor` before it checks anything -/
+  uniformInPlace : Bool
+  /-- `periodogram_csd` reshapes its input in place and restores it at the end -/
+  csdInPlace : Bool
+  deriving Repr, DecidableEq
+
+def fixed : Cfg := ⟨false, false, false, false⟩
+def current : Cfg := ⟨false, true, false, true⟩
+def beforeFirstRepair : Cfg := ⟨true, true, true, true⟩
+
+abbrev Store := List (List Int)
+
+def aget (st : Store) (i : Nat) : List Int := st.getD i []
+
+/-- the right-hand operand as the caller holds it -/
+inductive Operand where
+  | pyint (k : Int)                      -- python / numpy integer scalar
+  | pylist (xs : List Int)               -- python list of integers
+  | arr64 (id : Nat)                     -- the caller's int64 ndarray (in the store)
+  | time (ps : List Int) (scalar : Bool) (u : TimeUnit)   -- a time object: never scaled
+  deriving Repr, DecidableEq
+
+/-- the operand read in base units with conversion factor `f`; with `inPlace` an ndarray operand
+is overwritten by its scaled values (`val *= factor`) -/
+def convertOperand (inPlace : Bool) (st : Store) (f : Int) : Operand → Store × List Int × Bool
+  | .pyint k => (st, [k * f], true)
+  | .pylist xs => (st, xs.map (· * f), false)
+  | .arr64 id =>
+    let scaled := (aget st id).map (· * f)
+    (if inPlace then st.set id scaled else st, scaled, false)
+  | .time ps sc _ => (st, ps, sc)
+
+/-- the same operand as the C01 model sees it (for the result values) -/
+def toC01 (st : Store) : Operand → C01.Operand
+  | .pyint k => .bare true [.int k]
+  | .pylist xs => .bare false (xs.map .int)
+  | .arr64 id => .bare false ((aget st id).map .int)
+  | .time ps sc u => .time ⟨ps, u, sc⟩
+
+inductive BinOp where
+  | ar (o : C01.ArithOp) | cm (o : C01.CmpOp)
+  deriving Repr, DecidableEq
+
+inductive BinRes where
+  | time (t : C01.TVal) | bools (bs : List Bool) (scalar : Bool) | err
+  deriving Repr, DecidableEq
+
+/-- `self <op> val` on a TimeArray: store afterwards and result -/
+def binop (cfg : Cfg) (st : Store) (self : C01.TVal) (op : BinOp) (v : Operand) : Store × BinRes :=
+  let st' := (convertOperand cfg.binopInPlace st (C17.factorOf self.unit) v).1
+  let r := match op with
+    | .ar o => match C01.arith o self (toC01 st v) with
+      | .ok t => BinRes.time t
+      | .error _ => .err
+    | .cm o => match C01.compare o self (toC01 st v) with
+      | .ok (bs, sc) => .bools bs sc
+      | .error _ => .err
+  (st', r)
+
+/-- `self[a:b] = val` (0 ≤ a ≤ b ≤ n; `b = a + 1` for an integer key) on a TimeArray:
+store afterwards and the payload of `self` afterwards; `none` = ValueError (shape mismatch) -/
+def setItem (cfg : Cfg) (st : Store) (self : C01.TVal) (a b : Nat) (v : Operand) :
+    Store × Option (List Int) :=
+  let (st', vals, _) := convertOperand cfg.setitemInPlace st (C17.factorOf self.unit) v
+  let m := b - a
+  if b ≤ self.ps.length ∧ a ≤ b then
+    if vals.length = m then (st', some (self.ps.take a ++ vals ++ self.ps.drop b))
+    else if vals.length = 1 then (st', some (self.ps.take a ++ List.replicate m (vals.headD 0) ++ self.ps.drop b))
+    else (st', none)
+  else (st', none)
+
+/-- the operand conversion and uniformity check of `UniformTime += / -=` for a 1-d operand:
+store afterwards and the step of the operand, or the refusal -/
+def checkUniform (cfg : Cfg) (st : Store) (u : TimeUnit) (v : Operand) : Store × Except C17.Err Int :=
+  let (st', vals, sc) := convertOperand cfg.uniformInPlace st (C17.factorOf u) v
+  if sc then (st', .ok 0) else (st', C17.rampStep vals)
+
+/-! ### time series: copy, arithmetic through a copy, in-place arithmetic -/
+structure Series where
+  data : Nat
+  t0 : Nat
+  dt : Nat
+  info : Nat
+  deriving Repr, DecidableEq
+
+def Series.ids (s : Series) : List Nat := [s.data, s.t0, s.dt, s.info]
+
+/-- `TimeSeries.copy()`: new data buffer, new time axis (own attribute objects), new metadata dict -/
+def seriesCopy (st : Store) (s : Series) : Store × Series :=
+  let n := st.length
+  (st ++ [aget st s.data, aget st s.t0, aget st s.dt, aget st s.info],
+   { data := n, t0 := n + 1, dt := n + 2, info := n + 3 })
+
+/-- `a + other`, `a - other`, …: `out = self.copy(); out.data = out.data.__op__(other)` -/
+def seriesArith (st : Store) (f : Int → Int → Int) (s : Series) (other : Nat) : Store × Series :=
+  let (st1, out) := seriesCopy st s
+  let n := st1.length
+  (st1 ++ [List.zipWith f (aget st1 out.data) (aget st1 other)], { out with data := n })
+
+/-- `a += other`: `self.data.__iadd__(other)` writes into the series' own buffer -/
+def seriesInplace (st : Store) (f : Int → Int → Int) (s : Series) (other : Nat) : Store :=
+  st.set s.data (List.zipWith f (aget st s.data) (aget st other))
+
+/-! ### `periodogram_csd`: reshape – compute – restore -/
+structure ArrMeta where
+  shape : List Nat
+  contiguous : Bool
+  deriving Repr, DecidableEq
+
+/-- `(-1, N)` -/
+def flat2 (shape : List Nat) : List Nat := [shape.dropLast.foldl (· * ·) 1, shape.getLastD 1]
+
+/-- where the middle step raises -/
+inductive Fail where
+  | none | compute
+  deriving Repr, DecidableEq
+
+inductive CErr where | attributeError | valueError deriving Repr, DecidableEq
+
+def csd (cfg : Cfg) (s : ArrMeta) (fail : Fail) : ArrMeta × Option CErr :=
+  if cfg.csdInPlace then
+    -- step 1: `s.shape = (-1, N)` — numpy refuses when the new shape needs a copy
+    if !s.contiguous && s.shape.length ≥ 3 then (s, some .attributeError)
+    else
+      let s1 := { s with shape := flat2 s.shape }
+      -- step 2: `Sk.shape` / `fftpack.fft(s, n=NFFT)` may raise
+      if fail = .compute then (s1, some .valueError)
+      -- step 3: `s.shape = s_shape`
+      else ({ s1 with shape := s.shape }, none)
+  else
+    -- `s.reshape((-1, N))`: a view or a copy; the caller's array is never touched
+    if fail = .compute then (s, some .valueError) else (s, none)
+
+/-! ### line protocol -/
+open Proto
+
+def parseStoreArr? (s : String) : Option (List Int) := parseIntList? s
+
+/-- `i:<k>` | `l:<list>` | `a:<list>` (an int64 array, put into the store at id 0) | `T:…` -/
+def parseOperand? (s : String) : Option (Store × Operand) :=
+  match s.splitOn ":" with
+  | ["i", k] => k.toInt?.map fun k => ([], .pyint k)
+  | ["l", xs] => (parseIntList? xs).map fun xs => ([], .pylist xs)
+  | ["a", xs] => (parseIntList? xs).map fun xs => ([xs], .arr64 0)
+  | _ => (C01.parseT? s).map fun t => ([], .time t.ps t.scalar t.unit)
+
+def showOperandAfter (st : Store) : Operand → String
+  | .arr64 id => showIntList (aget st id)
+  | _ => "same"
+
+def cfgOf (s : String) : Option Cfg :=
+  if s = "fixed" then some fixed else if s = "current" then some current
+  else if s = "before" then some beforeFirstRepair else none
+
+def handle1 (cfg : Cfg) (args : List String) : String :=
+  match args with
+  | ["binop", op, t, v] => match C01.parseT? t, parseOperand? v with
+    | some t, some (st, v) =>
+      let o? : Option BinOp := match op with
+        | "add" => some (.ar .add) | "sub" => some (.ar .sub) | "radd" => some (.ar .radd) | "rsub" => some (.ar .rsub)
+        | "lt" => some (.cm .lt) | "le" => some (.cm .le) | "gt" => some (.cm .gt) | "ge" => some (.cm .ge)
+        | "eq" => some (.cm .eq) | _ => none
+      match o? with
+      | some o =>
+        let (st', r) := binop cfg st t o v
+        let rs := match r with
+          | .time t => "ok " ++ C01.showT t
+          | .bools bs sc => s!"ok B:{if sc then "1" else "0"}:{showBoolList bs}"
+          | .err => "err"
+        s!"{rs} operand={showOperandAfter st' v}"
+      | none => "bad-op"
+    | _, _ => "bad-op"
+  | ["setitem", t, a, b, v] => match C01.parseT? t, a.toNat?, b.toNat?, parseOperand? v with
+    | some t, some a, some b, some (st, v) =>
+      let (st', r) := setItem cfg st t a b v
+      let rs := match r with
+        | some ps => "ok " ++ showIntList ps
+        | none => "err"
+      s!"{rs} operand={showOperandAfter st' v}"
+    | _, _, _, _ => "bad-op"
+  | ["uniform", u, v] => match TimeUnit.ofString? u, parseOperand? v with
+    | some u, some (st, v) =>
+      let (st', r) := checkUniform cfg st u v
+      let rs := match r with
+        | .ok d => s!"ok {d}"
+        | .error e => "err " ++ e.name
+      s!"{rs} operand={showOperandAfter st' v}"
+    | _, _ => "bad-op"
+  | ["series", data, other] => match parseIntList? data, parseIntList? other with
+    | some d, some o =>
+      -- store: 0 data, 1 t0, 2 dt, 3 meta, 4 other
+      let st : Store := [d, [0], [1], [7], o]
+      let s : Series := { data := 0, t0 := 1, dt := 2, info := 3 }
+      let (st1, out) := seriesArith st (· + ·) s 4
+      let st2 := seriesInplace st1 (· + ·) out 4
+      let (st3, c) := seriesCopy st2 s
+      let st4 := seriesInplace st3 (· * ·) c 4
+      s!"ok sum={showIntList (aget st1 out.data)} sum2={showIntList (aget st2 out.data)} copyprod={showIntList (aget st4 c.data)} orig={showIntList (aget st4 0)} other={showIntList (aget st4 4)}"
+    | _, _ => "bad-op"
+  | ["csd", shape, contig, fail] => match parseNatList? shape with
+    | some sh =>
+      let f := if fail = "none" then Fail.none else Fail.compute
+      let (s', e) := csd cfg ⟨sh, contig = "1"⟩ f
+      let es := match e with
+        | none => "ok" | some .attributeError => "err" | some .valueError => "err"
+      s!"{es} shape={showNatList s'.shape}"
+    | none => "bad-op"
+  | _ => "bad-op"
+
+/-- every line is answered for the repaired and for the pinned behaviour: `<fixed> ## <current>` -/
+def handle (args : List String) : String :=
+  handle1 fixed args ++ " ## " ++ handle1 current args
 
 end Nitime.C16
